@@ -43,6 +43,10 @@ type VarsCase struct {
 	// it is reported skipped in front of it: what an earlier task of the run did or did not do must not
 	// change what reaches the commands of a later one
 	Gate bool `json:"gate,omitempty"`
+	// BadBraces: the probing task gets one more command that holds a proper reference next to braces the
+	// template syntax cannot read (an awk program). spok may reject the spokfile; if it runs the command,
+	// the reference in it is replaced like any other
+	BadBraces bool `json:"bad_braces,omitempty"`
 }
 
 var varNames = []string{"AMB_A", "HOME", "LANG", "DOT_B", "BOTH_C", "PLAIN_D", "other", "Mixed_e"}
@@ -115,6 +119,7 @@ func genVarsBody(t *rapid.T) VarsCase {
 		c.Split = rapid.IntRange(1, n).Draw(t, "split")
 	}
 	c.Gate = rapid.IntRange(0, 2).Draw(t, "gate") == 0
+	c.BadBraces = n > 0 && rapid.IntRange(0, 7).Draw(t, "bad_braces") == 0
 	return c
 }
 
@@ -176,6 +181,9 @@ func (c VarsCase) source() (src string, cmds map[string][2]string) {
 	if len(c.Vars) >= 2 {
 		fmt.Fprintf(&b, "    echo 'pre {{.%s}} mid {{.%s}}' post $UNSET_VAR 'lit {{.%s}}'\n", c.Vars[0].Name, c.Vars[1].Name, c.Vars[0].Name)
 	}
+	if c.BadBraces && len(c.Vars) > 0 {
+		fmt.Fprintf(&b, "    printf '%%s' '{{.%s}}' | awk '{{ print $1, $2 }}'\n", c.Vars[0].Name)
+	}
 	b.WriteString("    echo done\n}\n")
 	return b.String(), nil
 }
@@ -235,7 +243,7 @@ func execVars(s *ev.Shard, b *sandbox.Box, c VarsCase) *rp.Fail {
 		request = []string{"early", "show"}
 	}
 	if c.Gate && !anyFail {
-		if r0 := b.Run(cwd, env, runTimeout, "gate"); r0.Exit != 0 {
+		if r0 := b.Run(cwd, env, runTimeout, "gate"); r0.Exit != 0 && !c.BadBraces {
 			return &rp.Fail{Sig: "valid-program-rejected", Size: size, Msg: fmt.Sprintf("%s: `spok gate` failed with status %d: %s", desc, r0.Exit, sandbox.Strip(r0.Stderr))}
 		}
 	}
@@ -255,6 +263,24 @@ func execVars(s *ev.Shard, b *sandbox.Box, c VarsCase) *rp.Fail {
 		}
 		if s != nil {
 			s.Class("failing_exec")
+		}
+		return nil
+	}
+	if c.BadBraces && len(c.Vars) > 0 {
+		// either the spokfile is refused, or the reference is replaced; never a run with "{{.NAME}}" left in a command
+		if res.Exit == 0 {
+			if rs, ok := parseJSON(res.Stdout); ok {
+				for _, tr := range rs {
+					for _, cr := range tr.cmds() {
+						if strings.Contains(cr.Cmd, "{{."+c.Vars[0].Name+"}}") {
+							return &rp.Fail{Sig: "reference-not-substituted", Size: size, Msg: fmt.Sprintf("%s: the command %q ran with the reference to %s still in it", desc, cr.Cmd, c.Vars[0].Name)}
+						}
+					}
+				}
+			}
+		}
+		if s != nil {
+			s.Class("command_with_unreadable_braces")
 		}
 		return nil
 	}
